@@ -352,6 +352,9 @@ pub fn run_c15<B: Backend>(sc: &C15Scenario) -> Outcome {
             ops.push((3, j)); // interact panic, future dropped before the closure ran
             ops.push((4, j)); // mark broken
         }
+        if sched::pending_jobs() > 0 {
+            ops.push((6, 0)); // the blocking pool gets around to the queued closures now
+        }
         ops.push((9, 0)); // stop
         let (op, j) = ops[choose_free(ops.len())];
         explorer::count_step();
@@ -405,9 +408,11 @@ pub fn run_c15<B: Backend>(sc: &C15Scenario) -> Outcome {
                 let w: &SyncWrapper<B::Conn> = o;
                 let mut t = Task::new(unsafe_static(w.interact(|_c| -> u8 { panic!("USER-PANIC") })));
                 if op == 3 {
+                    // the future is dropped while the closure is still queued on the
+                    // blocking pool; it runs whenever the pool gets to it (op 6, or in
+                    // FIFO order ahead of the next closure somebody waits for)
                     let _ = t.poll();
                     t.cancel();
-                    sched::run_jobs();
                 } else {
                     for _ in 0..100 {
                         if t.poll().is_some() {
@@ -450,11 +455,14 @@ pub fn run_c15<B: Backend>(sc: &C15Scenario) -> Outcome {
                     });
                 }
             }
-            _ => {
+            5 => {
                 let (o, s) = held.remove(j);
                 trace!("return connection {}", s);
                 c(|w| w.log.push(format!("return@{}", s)));
                 drop(o);
+            }
+            _ => {
+                trace!("blocking pool runs {} queued closures", sched::pending_jobs());
                 sched::run_jobs();
             }
         }
